@@ -4,6 +4,7 @@ import (
 	"bytes"
 	"errors"
 	"fmt"
+	"math"
 	"strings"
 
 	"github.com/arnodel/golua/ast"
@@ -341,6 +342,14 @@ func (r *Runtime) compileLuaStat(name string, stat *ast.BlockStat, statSize uint
 	unit, err := kc.CompileQueue()
 	if err != nil {
 		return nil, 0, err
+	}
+
+	// The program counter of a running function is an int16: a function whose
+	// code does not fit cannot be run.
+	for _, k := range unit.Constants {
+		if kc, ok := k.(code.Code); ok && kc.EndOffset-kc.StartOffset > math.MaxInt16 {
+			return nil, 0, fmt.Errorf("%s: %s too large (%d instructions, limit is %d)", name, kc.ShortString(), kc.EndOffset-kc.StartOffset, math.MaxInt16)
+		}
 	}
 
 	// We no longer need the constants
